@@ -752,3 +752,256 @@ Proof.
   exact (resume_has_checkpoint sync_sched c Hs true sync_needed pend_ids sync_inv sync_H_res sync_H_sug sync_H_rem
            sync_H_err (sync0 tbl mx) its pre i post (sync0_inv tbl mx Ht) E).
 Qed.
+
+(* ==== DEHB: dehb_sched satisfies the interface of the resume theorem ========================== *)
+Definition dpend_ids (s : dehb) : list Z := map fst (d_pending s).
+Definition b0ids (s : dehb) : list Z :=
+  map fst (d_prev0 s) ++ map fst (occupied (b_cur (nth 0 (d_brs s) dbr))).
+Definition dehb_needed (s : dehb) : list Z := dpend_ids s ++ (if d_support s then b0ids s else []).
+
+(* all ids known; the brackets exist; a job running for a bracket other than the first one is not a
+   trial kept (paused) by the first bracket *)
+Definition dehb_inv (n : Z) (s : dehb) : Prop :=
+  (0 <= n)%Z /\ (forall x, In x (dpend_ids s ++ b0ids s) -> (0 <= x < n)%Z) /\
+  (0 < length (d_brs s))%nat /\
+  (forall t k pos, In (t, (k, pos)) (d_pending s) -> k <> 0%nat -> ~ In t (b0ids s)).
+
+Lemma occupied_upd cur : forall pos i m x,
+  In x (map fst (occupied (upd_nth cur pos (Some i, Some m)))) -> x = i \/ In x (map fst (occupied cur)).
+Proof.
+  induction cur as [|[[a|] [b|]] cur IH]; intros [|pos] i m x; simpl; auto.
+  - intros [<-|H]; auto.
+  - intros [<-|H]; [right; now left|]. destruct (IH _ _ _ _ H); auto.
+  - intros [<-|H]; auto.
+  - intros H. destruct (IH _ _ _ _ H); auto.
+  - intros [<-|H]; auto.
+  - intros H. destruct (IH _ _ _ _ H); auto.
+  - intros [<-|H]; auto.
+  - intros H. destruct (IH _ _ _ _ H); auto.
+Qed.
+
+Lemma occupied_repeat_none n : occupied (repeat (@None Z, @None (option Q)) n) = [].
+Proof. induction n; simpl; auto. Qed.
+
+Lemma nth0_app {A} (l l' : list A) d : (0 < length l)%nat -> nth 0 (l ++ l') d = nth 0 l d.
+Proof. destruct l; simpl; [lia|reflexivity]. Qed.
+
+Lemma dehb_deliver_inv n s i k pos m : dehb_inv n s -> In (i, (k, pos)) (d_pending s) ->
+  let s' := dehb_deliver s i k pos m in
+  dehb_inv n s' /\ d_support s' = d_support s /\
+  incl (b0ids s') (if Nat.eqb k 0 then i :: b0ids s else b0ids s) /\
+  (forall x, In x (dpend_ids s') <-> In x (dpend_ids s) /\ x <> i).
+Proof.
+  intros [H0 [Hb [Hl Hsep]]] Hin. cbv zeta. unfold dehb_deliver. change (new_bracket []) with dbr.
+  set (b := nth k (d_brs s) dbr). set (cur' := upd_nth (b_cur b) pos (Some i, Some m)).
+  assert (In i (dpend_ids s)) as Hip by (apply in_map_iff; exists (i, (k, pos)); auto).
+  (* state s1 for a given new bracket b' and completion flag *)
+  assert (forall b' (complete : bool) p,
+            (k = 0%nat -> incl (map fst (occupied (b_cur b'))) (i :: map fst (occupied (b_cur b))) /\
+                          (complete = true -> incl (map fst (occupied (b_cur b'))) (map fst (occupied cur')))) ->
+            let s1 := {| d_tbl := d_tbl s; d_max := d_max s; d_support := d_support s; d_brs := upd_nth (d_brs s) k b';
+                         d_primary := p; d_pending := remove_pending (d_pending s) i;
+                         d_rung0 := if Nat.eqb k 0 && complete then Datatypes.S (d_rung0 s) else d_rung0 s;
+                         d_prev0 := if Nat.eqb k 0 && complete then occupied cur' else d_prev0 s |} in
+            dehb_inv n s1 /\ incl (b0ids s1) (if Nat.eqb k 0 then i :: b0ids s else b0ids s) /\
+            (forall x, In x (dpend_ids s1) <-> In x (dpend_ids s) /\ x <> i)) as K.
+  { intros b' complete p Hb' s1.
+    assert (incl (b0ids s1) (if Nat.eqb k 0 then i :: b0ids s else b0ids s)) as Hinc.
+    { unfold b0ids, s1. simpl. destruct (Nat.eqb k 0) eqn:Ek.
+      - apply Nat.eqb_eq in Ek. subst k. destruct (Hb' eq_refl) as [A B].
+        rewrite nth_upd_nth_eq; [|exact Hl]. fold b. simpl.
+        assert (incl (map fst (occupied cur')) (i :: map fst (occupied (b_cur b)))) as Hc
+          by (intros x Hx; destruct (occupied_upd _ _ _ _ _ Hx); [left; auto | now right]).
+        intros x Hx. apply in_app_or in Hx as [Hx|Hx].
+        + destruct complete; simpl in Hx.
+          * apply Hc in Hx. destruct Hx as [Hx|Hx]; [now left | right; apply in_or_app; now right].
+          * right. apply in_or_app. now left.
+        + apply A in Hx. destruct Hx as [Hx|Hx]; [now left | right; apply in_or_app; now right].
+      - apply Nat.eqb_neq in Ek. simpl. rewrite nth_upd_nth_neq; [apply incl_refl|exact Ek]. }
+    assert (forall x, In x (dpend_ids s1) <-> In x (dpend_ids s) /\ x <> i) as Hpi
+      by (intros x; unfold dpend_ids, s1; simpl; apply remove_pending_ids).
+    split; [|split; [exact Hinc|exact Hpi]].
+    split; [exact H0|]. split; [|split].
+    - intros x Hx. apply Hb. apply in_app_or in Hx as [Hx|Hx].
+      + apply Hpi in Hx. apply in_or_app. left. tauto.
+      + apply Hinc in Hx. destruct (Nat.eqb k 0); [destruct Hx as [<-|Hx]|]; apply in_or_app; auto.
+    - unfold s1. simpl. now rewrite upd_nth_length.
+    - intros t k2 p2 Ht Hk2 Hx. unfold s1 in Ht. simpl in Ht. apply remove_pending_In in Ht as [Ht Hne]. simpl in Hne.
+      apply Hinc in Hx. destruct (Nat.eqb k 0); [destruct Hx as [Hx|Hx]; [congruence|]|]; exact (Hsep _ _ _ Ht Hk2 Hx). }
+  (* the new-bracket wrapper keeps everything *)
+  assert (forall s1, dehb_inv n s1 ->
+            let s2 := {| d_tbl := d_tbl s1; d_max := d_max s1; d_support := d_support s1; d_brs := dehb_new_bracket s1;
+                         d_primary := length (d_brs s1); d_pending := d_pending s1; d_rung0 := d_rung0 s1; d_prev0 := d_prev0 s1 |} in
+            dehb_inv n s2 /\ b0ids s2 = b0ids s1 /\ dpend_ids s2 = dpend_ids s1) as Kn.
+  { intros s1 [A0 [Ab [Al As]]] s2.
+    assert (b0ids s2 = b0ids s1) as Eb.
+    { unfold b0ids, s2, dehb_new_bracket. simpl. now rewrite nth0_app. }
+    split; [|split; [exact Eb|reflexivity]].
+    split; [exact A0|]. split; [|split].
+    - intros x Hx. apply Ab. unfold dpend_ids in *. simpl in Hx. now rewrite Eb in Hx.
+    - unfold s2, dehb_new_bracket. simpl. rewrite app_length. lia.
+    - intros t k2 p2 Ht Hk2. rewrite Eb. exact (As _ _ _ Ht Hk2). }
+  unfold de_bracket_on_result. fold cur'.
+  assert (forall b' complete p, (k = 0%nat -> incl (map fst (occupied (b_cur b'))) (i :: map fst (occupied (b_cur b))) /\
+                          (complete = true -> incl (map fst (occupied (b_cur b'))) (map fst (occupied cur')))) ->
+            forall cnd : bool,
+            let s1 := {| d_tbl := d_tbl s; d_max := d_max s; d_support := d_support s; d_brs := upd_nth (d_brs s) k b';
+                         d_primary := p; d_pending := remove_pending (d_pending s) i;
+                         d_rung0 := if Nat.eqb k 0 && complete then Datatypes.S (d_rung0 s) else d_rung0 s;
+                         d_prev0 := if Nat.eqb k 0 && complete then occupied cur' else d_prev0 s |} in
+            let s' := if cnd then {| d_tbl := d_tbl s1; d_max := d_max s1; d_support := d_support s1; d_brs := dehb_new_bracket s1;
+                         d_primary := length (d_brs s1); d_pending := d_pending s1; d_rung0 := d_rung0 s1; d_prev0 := d_prev0 s1 |} else s1 in
+            dehb_inv n s' /\ d_support s' = d_support s /\
+            incl (b0ids s') (if Nat.eqb k 0 then i :: b0ids s else b0ids s) /\
+            (forall x, In x (dpend_ids s') <-> In x (dpend_ids s) /\ x <> i)) as KK.
+  { intros b' complete p Hb' cnd s1 s'. destruct (K b' complete p Hb') as [A [B C]]. fold s1 in A, B, C.
+    destruct cnd; unfold s'.
+    - destruct (Kn s1 A) as [A2 [B2 C2]]. split; [exact A2|]. split; [reflexivity|]. rewrite B2, C2. auto.
+    - split; [exact A|]. split; [reflexivity|auto]. }
+  assert (incl (map fst (occupied cur')) (i :: map fst (occupied (b_cur b)))) as Hc
+    by (intros x Hx; destruct (occupied_upd _ _ _ _ _ Hx); [left; auto | now right]).
+  destruct (Nat.leb (length cur') (b_free b) && all_occupied cur').
+  - destruct (b_later b) as [|[sz lv] later]; cbv beta iota zeta.
+    + apply KK. intros _. simpl. split; [exact Hc|intros _; apply incl_refl].
+    + apply KK. intros _. simpl. rewrite occupied_repeat_none. simpl. split; intros; intros x [].
+  - cbv beta iota zeta. apply KK. intros _. simpl. split; [exact Hc|discriminate].
+Qed.
+
+Lemma dehb_H_res : forall n s i r s' d cl, dehb_inv n s -> In i (dpend_ids s) ->
+  on_result dehb_sched s i r = (s', d, cl) ->
+  dehb_inv n s' /\ incl (dehb_needed s') (dehb_needed s) /\ (d = STOP -> ~ In i (dehb_needed s')) /\
+  (forall j, cl = Some j -> In j (dehb_needed s)) /\
+  (forall x, In x (dpend_ids s) -> x <> i \/ d = CONTINUE -> In x (dpend_ids s')).
+Proof.
+  intros n s i r s' d cl HI Hip E. simpl in E. unfold dehb_on_result in E.
+  destruct (pending_of (d_pending s) i) as [[k pos]|] eqn:Ep.
+  2:{ exfalso. exact (pending_of_None _ _ Ep Hip). }
+  apply pending_of_In in Ep.
+  destruct (Z.leb _ _).
+  2:{ injection E as <- <- <-. split; [exact HI|]. split; [apply incl_refl|]. split; [discriminate|]. split; [discriminate|auto]. }
+  destruct (dehb_deliver_inv n s i k pos (fst r) HI Ep) as [A [Bs [Bi Cp]]].
+  injection E as <- <- <-. split; [exact A|].
+  assert (incl (dehb_needed (dehb_deliver s i k pos (fst r))) (dehb_needed s)) as Hn.
+  { unfold dehb_needed. rewrite Bs. intros x Hx. apply in_app_or in Hx as [Hx|Hx].
+    - apply Cp in Hx. apply in_or_app. left. tauto.
+    - destruct (d_support s); [|destruct Hx]. apply Bi in Hx.
+      destruct (Nat.eqb k 0); [destruct Hx as [<-|Hx]|]; apply in_or_app; auto. }
+  split; [exact Hn|]. split; [|split; [discriminate|]].
+  - intros Hd Hx. unfold dehb_needed in Hx. rewrite Bs in Hx. apply in_app_or in Hx as [Hx|Hx].
+    + apply Cp in Hx. tauto.
+    + destruct (d_support s) eqn:Es; [|destruct Hx]. simpl in Hd.
+      destruct (Nat.eqb k 0) eqn:Ek; [discriminate|]. apply Nat.eqb_neq in Ek. apply Bi in Hx.
+      destruct HI as [_ [_ [_ Hsep]]]. exact (Hsep _ _ _ Ep Ek Hx).
+  - intros x Hx [Hne|Hc]; [apply Cp; auto|]. destruct (d_support s && Nat.eqb k 0); discriminate.
+Qed.
+
+Lemma dehb_H_err : forall n s i, dehb_inv n s ->
+  dehb_inv n (on_error dehb_sched s i) /\ incl (dehb_needed (on_error dehb_sched s i)) (dehb_needed s) /\
+  (forall x, In x (dpend_ids s) -> x <> i -> In x (dpend_ids (on_error dehb_sched s i))).
+Proof.
+  intros n s i HI. simpl. unfold dehb_on_error.
+  destruct (pending_of (d_pending s) i) as [[k pos]|] eqn:Ep.
+  2:{ split; [exact HI|]. split; [apply incl_refl|auto]. }
+  apply pending_of_In in Ep.
+  assert (In i (dpend_ids s)) as Hip by (apply in_map_iff; exists (i, (k, pos)); auto).
+  destruct (dehb_deliver_inv n s i k pos None HI Ep) as [A [Bs [Bi Cp]]].
+  split; [exact A|]. split; [|intros x Hx Hne; apply Cp; auto].
+  unfold dehb_needed. rewrite Bs. intros x Hx. apply in_app_or in Hx as [Hx|Hx].
+  - apply Cp in Hx. apply in_or_app. left. tauto.
+  - destruct (d_support s); [|destruct Hx]. apply Bi in Hx.
+    destruct (Nat.eqb k 0); [destruct Hx as [<-|Hx]|]; apply in_or_app; auto.
+Qed.
+
+Lemma dehb_H_rem : forall n s s' l, dehb_inv n s -> removables dehb_sched s = (s', l) ->
+  dehb_inv n s' /\ incl (dehb_needed s') (dehb_needed s) /\ incl (dpend_ids s) (dpend_ids s') /\
+  forall i, In i l -> ~ In i (dehb_needed s') /\ (0 <= i < n)%Z.
+Proof.
+  intros n s s' l HI E. simpl in E. injection E as <- <-.
+  split; [exact HI|]. split; [apply incl_refl|]. split; [apply incl_refl|]. intros i [].
+Qed.
+
+(* handing out a slot does not touch the results stored in the first bracket *)
+Lemma dehb_handout_cur0 s : (0 < length (d_brs s))%nat ->
+  forall brs1 k pos,
+  (match find_slot (d_brs s) 0 (d_primary s) with
+   | Some (k, b', pos, _) => (upd_nth (d_brs s) k b', k, pos)
+   | None =>
+       let brs := dehb_new_bracket s in
+       let k := length (d_brs s) in
+       match next_free_slot (nth k brs dbr) with
+       | Some (b', pos, _) => (upd_nth brs k b', k, pos)
+       | None => (brs, k, 0%nat)
+       end
+   end) = (brs1, k, pos) ->
+  b_cur (nth 0 brs1 dbr) = b_cur (nth 0 (d_brs s) dbr) /\ (0 < length brs1)%nat.
+Proof.
+  intros Hl brs1 k pos E.
+  destruct (find_slot (d_brs s) 0 (d_primary s)) as [[[[k1 b'] p1] tid]|] eqn:Ef.
+  - injection E as <- <- <-. destruct (find_slot_spec _ _ _ _ _ _ _ Ef) as [_ [Hk Hnf]]. rewrite Nat.sub_0_r in Hk, Hnf.
+    destruct (next_free_slot_spec _ _ _ _ Hnf) as [_ [_ [_ [_ ->]]]]. rewrite upd_nth_length. split; [|exact Hl].
+    destruct k1; [rewrite nth_upd_nth_eq; [reflexivity|exact Hl] | rewrite nth_upd_nth_neq; [reflexivity|discriminate]].
+  - cbv zeta in E. unfold dehb_new_bracket in E.
+    assert (nth 0 (d_brs s ++ [new_bracket (nth (Nat.modulo (length (d_brs s)) (length (d_tbl s))) (d_tbl s) [])]) dbr
+            = nth 0 (d_brs s) dbr) as E0 by (now apply nth0_app).
+    destruct (next_free_slot _) as [[[b' p1] tid]|] eqn:En.
+    + injection E as <- <- <-. destruct (next_free_slot_spec _ _ _ _ En) as [_ [_ [_ [_ ->]]]].
+      rewrite upd_nth_length, app_length. split; [|lia].
+      rewrite nth_upd_nth_neq; [exact (f_equal b_cur E0)|]. lia.
+    + injection E as <- <- <-. rewrite app_length. split; [exact (f_equal b_cur E0)|lia].
+Qed.
+
+Lemma dehb_H_sug : forall n s g s' sg, dehb_inv n s -> suggest dehb_sched s n g = (s', sg) ->
+  match sg with
+  | SNone => dehb_inv n s' /\ incl (dehb_needed s') (dehb_needed s) /\ incl (dpend_ids s) (dpend_ids s')
+  | SNew => dehb_inv (n + 1)%Z s' /\ incl (dehb_needed s') (n :: dehb_needed s) /\ incl (n :: dpend_ids s) (dpend_ids s')
+  | SFrom j => dehb_inv (n + 1)%Z s' /\ incl (dehb_needed s') (n :: dehb_needed s) /\ incl (n :: dpend_ids s) (dpend_ids s') /\
+               (true = true -> In j (dehb_needed s))
+  | SResume i => dehb_inv n s' /\ incl (dehb_needed s') (dehb_needed s) /\ incl (i :: dpend_ids s) (dpend_ids s') /\
+                 In i (dehb_needed s)
+  end.
+Proof.
+  intros n s g s' sg [H0 [Hb [Hl Hsep]]] E. simpl in E. unfold dehb_suggest in E. change (new_bracket []) with dbr in E.
+  match type of E with context [match ?X with (_, _) => _ end] => destruct X as [[brs1 k] pos] eqn:Eh end.
+  destruct (dehb_handout_cur0 s Hl brs1 k pos Eh) as [Ecur Hl1].
+  assert (forall pend, b0ids (dehb_set s brs1 pend) = b0ids s) as Eb0 by (intros; unfold b0ids; simpl; now rewrite Ecur).
+  match type of E with context [match ?X with Some _ => _ | None => _ end] => destruct X as [t|] eqn:Epr end;
+    injection E as <- <-.
+  - (* promotion by resuming trial t of the previous rung of the first bracket *)
+    destruct (Nat.eqb k 0 && negb (Nat.eqb (d_rung0 s) 0) && d_support s) eqn:Ec; [|discriminate].
+    apply andb_true_iff in Ec as [Ec Esup]. apply andb_true_iff in Ec as [Ek _]. apply Nat.eqb_eq in Ek. subst k.
+    assert (In t (b0ids s)) as Ht.
+    { apply nth_error_In in Epr. apply top_list_incl in Epr. unfold b0ids. apply in_or_app. now left. }
+    split; [|split; [|split]].
+    + split; [exact H0|]. split; [|split; [exact Hl1|]].
+      * intros x Hx. rewrite Eb0 in Hx. unfold dpend_ids in Hx. simpl in Hx. apply Hb.
+        destruct Hx as [<-|Hx]; [apply in_or_app; now right | exact Hx].
+      * intros t2 k2 p2 Hin Hk2. rewrite Eb0. simpl in Hin. destruct Hin as [Hin|Hin]; [congruence|exact (Hsep _ _ _ Hin Hk2)].
+    + unfold dehb_needed. rewrite Eb0. simpl. rewrite Esup. intros x [<-|Hx]; [apply in_or_app; now right | exact Hx].
+    + unfold dpend_ids. simpl. apply incl_refl.
+    + unfold dehb_needed. rewrite Esup. apply in_or_app. now right.
+  - (* a new trial *)
+    split; [|split].
+    + split; [lia|]. split; [|split; [exact Hl1|]].
+      * intros x Hx. rewrite Eb0 in Hx. unfold dpend_ids in Hx. simpl in Hx.
+        destruct Hx as [<-|Hx]; [lia|]. specialize (Hb x Hx). lia.
+      * intros t2 k2 p2 Hin Hk2. rewrite Eb0. simpl in Hin. destruct Hin as [Hin|Hin]; [|exact (Hsep _ _ _ Hin Hk2)].
+        injection Hin as <- _ _. intros Hx. assert (0 <= n < n)%Z; [|lia]. apply Hb. apply in_or_app. now right.
+    + unfold dehb_needed. rewrite Eb0. simpl. intros x [<-|Hx]; [now left | now right].
+    + unfold dpend_ids. simpl. apply incl_refl.
+Qed.
+
+Lemma dehb0_inv tbl mx sup : dehb_inv 0%Z (dehb0 tbl mx sup).
+Proof.
+  split; [lia|]. split; [|split; [simpl; lia|intros t k pos []]].
+  intros x Hx. exfalso. unfold dpend_ids, b0ids, dehb0 in Hx. simpl in Hx.
+  destruct (nth 0 tbl []) as [|[sz lv] r]; simpl in Hx; [exact Hx|]. now rewrite occupied_repeat_none in Hx.
+Qed.
+
+Theorem dehb_resume_has_checkpoint : forall c tbl mx sup its pre i post, speculative c = false ->
+  run dehb_sched c (init (dehb0 tbl mx sup)) its = pre ++ EResume i :: post ->
+  forall w, ~ In (EDelete i w) pre.
+Proof.
+  intros c tbl mx sup its pre i post Hs E.
+  exact (resume_has_checkpoint dehb_sched c Hs true dehb_needed dpend_ids dehb_inv dehb_H_res dehb_H_sug dehb_H_rem
+           dehb_H_err (dehb0 tbl mx sup) its pre i post (dehb0_inv tbl mx sup) E).
+Qed.
